@@ -60,6 +60,7 @@ def _task(args):
         eng = E.Engine(deadline=deadline, timeout_ms=getattr(H, "SOLVER_TIMEOUT_MS", 20000),
                        prove_timeout_ms=getattr(H, "PROVE_TIMEOUT_MS", 60000))
         eng.numeric_first = getattr(H, "NUMERIC_FIRST", 0)
+        eng.fast_real = getattr(H, "FAST_REAL", False)
         assumptions = set()
 
         def fn(e):
